@@ -43,6 +43,14 @@ class ScriptedFactory(pythia.PolicyFactory):
 
     def __call__(self, problem_statement, algorithm, policy_supporter, study_name):
         fac = self
+        # a failure while the policy is being built (outside PythiaServicer's own try/except around policy.suggest)
+        sc0 = self.script.get('suggest') or []
+        if sc0:
+            e0 = sc0[min(self.n_suggest, len(sc0) - 1)]
+            if 'raise' in e0 and e0.get('where') == 'factory' and not self.script.get('_early_stop_call'):
+                self.n_suggest += 1
+                self.log.append(('factory', None, e0))
+                raise getattr(__import__('builtins'), e0['raise'])('scripted failure while building the policy')
 
         class Pol(pythia.Policy):
             def suggest(self, request):
